@@ -9,6 +9,7 @@ import (
 	"sort"
 	"strings"
 	"sync"
+	"syscall"
 	"time"
 
 	comet "github.com/wizenheimer/comet"
@@ -262,6 +263,51 @@ func raceRound(dir string, t *Trace) {
 	os.RemoveAll(dir)
 }
 
+// unlistableOpen: a failed open of the kind the property names -- the directory can be written to but not
+// listed. Root can list anything, so the open is made under an unprivileged effective uid (restored right
+// after); the failed open must leave no LOCK behind and the next open (directory readable again) succeeds.
+func unlistableOpen(dir string, t *Trace) {
+	os.RemoveAll(dir)
+	if err := os.MkdirAll(dir, 0o755); err != nil {
+		return
+	}
+	os.Chmod(dir, 0o333)
+	if err := syscall.Seteuid(65534); err != nil {
+		os.RemoveAll(dir)
+		t.Stat("lock.unlistable_open_unavailable") // not root: nothing observed
+		return
+	}
+	st, err := openPlain(dir)
+	syscall.Seteuid(0)
+	os.Chmod(dir, 0o755)
+	if err == nil {
+		st.Close()
+		os.RemoveAll(dir)
+		t.Stat("lock.unlistable_open_succeeded") // the directory was listable after all
+		return
+	}
+	code := lockCode(err)
+	left := lockExists(dir)
+	st2, err2 := openPlain(dir)
+	code2 := lockCode(err2)
+	la2 := lockExists(dir)
+	var ops []func(c *Case)
+	ops = append(ops, func(c *Case) { c.N(5).N(code).B(left) })
+	ops = append(ops, func(c *Case) { c.N(1).N(1).N(code2).B(la2) })
+	if err2 == nil {
+		ce := st2.Close()
+		ccode := lockCode(ce)
+		la3 := lockExists(dir)
+		ops = append(ops, func(c *Case) { c.N(2).N(1).N(ccode).B(la3) })
+	}
+	c := NewCase(1700).N(len(ops))
+	for _, f := range ops {
+		f(c)
+	}
+	t.Emit(c, "lock.unlistable_directory")
+	os.RemoveAll(dir)
+}
+
 func genC17(r *rand.Rand, t *Trace, thorough bool) {
 	n := 40
 	if thorough {
@@ -275,6 +321,10 @@ func genC17(r *rand.Rand, t *Trace, thorough bool) {
 	for it := 0; it < 3*n; it++ {
 		storeCaseCounter++
 		raceRound(filepath.Join(work, "stores", fmt.Sprintf("lr%d_%d", os.Getpid(), storeCaseCounter)), t)
+	}
+	for it := 0; it < 3; it++ {
+		storeCaseCounter++
+		unlistableOpen(filepath.Join(work, "stores", fmt.Sprintf("lu%d_%d", os.Getpid(), storeCaseCounter)), t)
 	}
 	for it := 0; it < 6; it++ {
 		// Close while a compaction / a background flush is held in the middle of its work: Close returns and
